@@ -123,10 +123,22 @@ class JetAbstract:
                 fun, jet_coords=jet_coords[: self.num_tcoeffs_in_args], t=t
             )
             out_like = tree.tree_map(np.zeros_like, out_like)
+
+            # Promote all leaves to their common dtype before learning how to
+            # unflatten: unravel() casts every leaf back to the dtype it has in
+            # the example, which would truncate the derivatives of, e.g.,
+            # an integer-typed leaf inside the jet.
+            like_flat, _ = tree.ravel_pytree((list(jet_coords), out_like))
+
+            def promote(s):
+                return np.asarray(s, dtype=like_flat.dtype)
+
+            out_like = tree.tree_map(promote, out_like)
             _, unravel_outputs = tree.ravel_pytree(out_like)
 
             # Flatten the residual because jax.experimental.jet is a bit high maintenance :)
-            _, unravel_inputs = tree.ravel_pytree(jet_coords[0])
+            in_like = tree.tree_map(promote, jet_coords[0])
+            _, unravel_inputs = tree.ravel_pytree(in_like)
             flat = [tree.ravel_pytree(s)[0] for s in tcoeffs]
 
             def jet_call(*y_and_t):
